@@ -146,7 +146,8 @@ class C19(Spec):
     oracle_filter = {"equals_model"}
     rule = ("TOML files over the documented keys: each key missing / right type / wrong type (int, float, bool, datetime, string, "
             "array, inline table) / negative / zero / huge (int64 extremes) / empty list; unknown keys and tables; [feeds] with "
-            "arrays of strings or of other types; colours: well-formed in both cases and 22 malformed strings (wrong length, bad "
+            "arrays of strings or of other types, and every source of an ACCEPTED feed is then opened the way ':feed' opens it (empty, blank, sigil-only, relative, "
+            "unparseable and refused sources: an error item, never a crash); colours: well-formed in both cases and 22 malformed strings (wrong length, bad "
             "digits, signs, spaces, non-ASCII digits, NUL). accept/reject and every parsed value are compared with Config.accept; "
             "a sample is also started as a real process (init() path: exit status 1 + diagnostic vs accepted). thorough: ALL 2^24 "
             "six-digit hex colours (lower and upper case) through hexToAnsi with a checksum of the decimal components. "
@@ -171,7 +172,12 @@ class C19(Spec):
         feeds, feeds_ok = None, True
         r = rng.random()
         if r < 0.25:
-            feeds = [("home", ("arr", [("str", "@a@b.example"), ("str", "https://x.example/u")])), ("empty", ("arr", []))]
+            # sources of every shape a user may write; none needs a name lookup (they are opened after acceptance)
+            srcs = ["@a@127.0.0.1:1", "https://127.0.0.1:1/u", "", " ", "@", "!", "@@", "!x@", "@a", "/nonexistent/file.json", "./x", "../x",
+                    "http://127.0.0.1:1/", "mailto:x", "%zz", "\t", "https://", "@\u00e9@127.0.0.1:1", "!a@127.0.0.1:1"]
+            feeds = [("home", ("arr", [("str", rng.choice(srcs)) for _ in range(rng.randint(1, 3))])), ("empty", ("arr", []))]
+            if rng.random() < 0.3:
+                feeds.append((rng.choice(["x", "a-b", "q1"]), ("arr", [("str", rng.choice(srcs))])))
         elif r < 0.35:
             feeds = [("bad", rng.choice([("arr", [("int", 1)]), ("str", "x"), ("int", 3), ("arr", [("arr", [])])]))]
             feeds_ok = False
